@@ -704,11 +704,13 @@ impl Lockfile {
         }
 
         let path = Self::resolve_path(url)?;
-        let lock = veryl_path::lock_dir("resolve")?;
+        // Held until this function returns (the lock is released when the file is dropped):
+        // checkout rewrites the work tree in place, so the reads below must not overlap
+        // with the checkout of the next process that resolves the same repository.
+        let _lock = veryl_path::lock_dir("resolve")?;
         let git = self.git_clone(url, &path)?;
         git.fetch()?;
         git.checkout(None)?;
-        veryl_path::unlock_dir(lock)?;
 
         let Some(prj_path) = Self::search_project(&path, project) else {
             return Err(MetadataError::ProjectNotFound {
